@@ -35,9 +35,9 @@ class Prop(common.PropertyCheck):
         combos = [(False, True, 2, 2), (True, False, 1, 3)] if self.tier == 'quick' else \
                  [(p, h, ni, ca) for p in (False, True) for h in (False, True) for ni in (1, 2) for ca in (1, 2, 3)]
         # an instrument with 12 fluorescence channels, all reported and plotted
-        yield {'k': 'run', 'plot': True, 'hist': rng.random() < 0.5, 'ninst': 1, 'arity': 1, 'default_out': False, 'seed': rng.randrange(1 << 30), 'inp_name': 'wide', 'wide': 12}
+        yield {'k': 'run', 'plot': True, 'hist': rng.random() < 0.5, 'ninst': 1, 'arity': 1, 'default_out': False, 'rel_out': True, 'seed': rng.randrange(1 << 30), 'inp_name': 'wide', 'wide': 12}
         for plot, hist, ninst, arity in combos:
-            yield {'k': 'run', 'plot': plot, 'hist': hist, 'ninst': ninst, 'arity': arity, 'default_out': rng.random() < 0.5 or (plot and not hist), 'seed': rng.randrange(1 << 30),
+            yield {'k': 'run', 'plot': plot, 'hist': hist, 'ninst': ninst, 'arity': arity, 'default_out': rng.random() < 0.5 or (plot and not hist), 'rel_out': True, 'seed': rng.randrange(1 << 30),
                    'inp_name': rng.choice(['samples', 'cells', 'mix.xls', 'xlsx', 'results.'] + ([] if (plot and not hist) else ['experiment', 'plate_07']))}
         for _ in range(self.budget(25, 300)):
             yield {'k': 'roundtrip', 'seed': rng.randrange(1 << 30), 'nrows': rng.randrange(0, 7), 'dup': rng.random() < 0.2, 'noid': rng.random() < 0.5, 'ws': rng.random() < 0.4}
@@ -115,7 +115,9 @@ class Prop(common.PropertyCheck):
             inst = ex.instruments_table()
             ex.write_fcs('FCFiles/beads1.fcs', 'FC001', kind='beads', n=1400, seed=case['seed'] % 1000 + 1)
             cl = {1: ('FL1',), 2: ('FL1', 'FL3'), 3: ('FL1', 'FL2', 'FL3')}[case['arity']]
-            brows = [excelgen.beads_row('B1', 'FC001', 'FCFiles/beads1.fcs', channels=('FL1', 'FL3'), clustering=cl)]
+            # MEF columns listed in another order than the instrument's channels (FL3 before FL1); a second row calibrates FL3 only
+            brows = [excelgen.beads_row('B1', 'FC001', 'FCFiles/beads1.fcs', channels=('FL3', 'FL1'), clustering=cl),
+                     excelgen.beads_row('B3', 'FC001', 'FCFiles/beads1.fcs', channels=('FL3',), clustering=('FL3',))]
             srows = []
             ex.write_fcs('FCFiles/s0.fcs', 'FC001', n=650, seed=case['seed'] % 1000 + 5)
             ex.write_fcs('FCFiles/s1.fcs', 'FC001', n=650, seed=case['seed'] % 1000 + 6)
@@ -140,11 +142,35 @@ class Prop(common.PropertyCheck):
                 beads.to_excel(w, sheet_name='Beads', index=False)
                 samples.to_excel(w, sheet_name='Samples', index=False)
             outp = None if case['default_out'] else os.path.join(ex.dir, 'result.xlsx')
+            cwd = os.getcwd()
+            inp_arg = inp
+            if case.get('rel_out') and not case['default_out']:
+                # input given relative to the working directory, in another folder; explicit relative output path
+                os.chdir(os.path.dirname(ex.dir))
+                inp_arg = os.path.join(os.path.basename(ex.dir), os.path.basename(inp))
+                outp = 'verif_rel_out_%d.xlsx' % (case['seed'] % 100000)
+            try:
+                with warnings.catch_warnings():
+                    warnings.simplefilter('ignore')
+                    np.random.seed(9)
+                    FlowCal.excel_ui.run(input_path=inp_arg, output_path=outp, verbose=False, plot=case['plot'], hist_sheet=case['hist'])
+                if case.get('rel_out') and not case['default_out']:
+                    outp = os.path.abspath(outp)
+            finally:
+                os.chdir(cwd)
+            # the bead model parameters the library computes for each beads row and channel (same seed), by hand
             with warnings.catch_warnings():
                 warnings.simplefilter('ignore')
                 np.random.seed(9)
-                FlowCal.excel_ui.run(input_path=inp, output_path=outp, verbose=False, plot=case['plot'], hist_sheet=case['hist'])
+                bt = beads.set_index('ID')
+                _bs, _fx, mo = FlowCal.excel_ui.process_beads_table(bt, inst, base_dir=ex.dir, full_output=True)
+            want_params = {}
+            for bid, o in mo.items():
+                if o is not None:
+                    for k, c in enumerate(o.mef_channels):
+                        want_params['%s|%s' % (bid, c)] = ', '.join(str(p) for p in o.fitting['beads_params'][k])
             outp = outp or os.path.join(ex.dir, case.get('inp_name', 'experiment') + '_output.xlsx')
+            self._rel_out_file = outp if case.get('rel_out') else None
             res = {'exists': os.path.exists(outp), 'workbooks': sorted(f for f in os.listdir(ex.dir) if f.endswith('.xlsx'))}
             if not res['exists']:
                 return res
@@ -179,6 +205,14 @@ class Prop(common.PropertyCheck):
                 res['nev'] = {str(k): (None if pd.isnull(v) else int(v)) for k, v in nev.items()}
                 res['expected_pairs'] = sorted([str(r['ID']), c[:-6]] for _, r in samples[samples['ID'].notnull()].iterrows()
                                                for c in samples.columns if c.endswith(' Units') and not pd.isnull(r[c]))
+            bout = pd.read_excel(outp, sheet_name='Beads', engine='openpyxl').set_index('ID')
+            for key, wantp in want_params.items():
+                bid, c = key.split('|')
+                got = bout.loc[bid].get(c + ' Beads Params. Values')
+                if str(got) != wantp:
+                    problems.append('Beads sheet: %s of row %s is %r, the bead model fitted for that channel has parameters %r' % (c + ' Beads Params. Values', bid, got, wantp))
+            if case.get('rel_out') and not case['default_out'] and os.path.exists(outp):
+                res['rel_out_ok'] = True
             res['problems'] = problems
             res['report_channels'] = [c[:-6] for c in samples.columns if c.endswith(' Units')]
             figs = []
@@ -194,6 +228,8 @@ class Prop(common.PropertyCheck):
             return res
         finally:
             ex.cleanup()
+            if getattr(self, '_rel_out_file', None) and os.path.exists(self._rel_out_file) and os.path.basename(self._rel_out_file).startswith('verif_rel_out_'):
+                os.unlink(self._rel_out_file)
             import matplotlib.pyplot as plt
             plt.close('all')
 
